@@ -111,6 +111,7 @@ def extra_templates():
         [S('a*'), S('iA*')], [S('ab'), S('iAB'), S('?ab')], [S('*a'), S('i*A'), S('*a*')], [S('ia'), S('a'), S('iA')],
         # one text under several relations inside one batch (the relation belongs to the member, not to the text)
         [S('a*'), S('b*'), S('*b'), S('*c')], [S('a*'), S('*a'), S('b')], [S('ia*'), S('i*a'), S('ib')],
+        [S('*'), S('>1')], [S('*'), ('i', 7), S('a')],
     ]
     for i, l in enumerate(mixed):
         out.append(('c17-list', 'mixed%d' % i, {'idents': {'A': M((K('f'), L(*l)))}, 'cond': ('id', 'A')}))
